@@ -48,6 +48,9 @@ func retryableKind(kind string) bool {
 
 func runC03(c *Ctx) {
 	r := c.R
+	if c.Replay == nil {
+		c03Storms(c)
+	}
 	r.Assume("statements and prepared ids are chosen so that the proxy forwards them (user keyspace, ids the backend knows); no write-consistency override is configured")
 	r.Assume("for responses the retry policy may swallow (unavailable, bootstrapping, overloaded, server error, truncate, retryable timeouts) the script answers identically on every host and the client must hold either exactly those bytes or the proxy's own 'no more hosts' error")
 	r.Require("requests_compared", "responses_compared")
@@ -250,6 +253,27 @@ func runC03(c *Ctx) {
 		smu.Lock()
 		delete(script, tok)
 		smu.Unlock()
+	}
+}
+
+// c03Storms: the same comparison on concurrent histories with retries and fail-overs (a re-sent request must still be
+// the client's bytes).
+func c03Storms(c *Ctx) {
+	storms := []stormParams{
+		{Hosts: 3, Conns: 1, Clients: 6, PerClient: 400, Window: 64, DeathRate: 6, Compress: true},
+		{Hosts: 2, Conns: 2, Clients: 4, PerClient: 500, Window: 8, DeathRate: 3},
+	}
+	if !c.Quick() {
+		for k := 0; k < 16; k++ {
+			rng := c.Rng(7000 + k)
+			storms = append(storms, stormParams{Hosts: 2 + rng.Intn(3), Conns: 1 + rng.Intn(2), Clients: 2 + rng.Intn(10), PerClient: 500 + rng.Intn(1500), Window: 2 + rng.Intn(200), DeathRate: rng.Intn(12), Compress: rng.Intn(2) == 0, Silence: rng.Intn(2) == 0})
+		}
+	}
+	for k, sp := range storms {
+		if c.Mine(k) {
+			c.Step("c03 %s", sp.String())
+			storm(c, 9000+k, sp, []string{"C03"})
+		}
 	}
 }
 
